@@ -143,7 +143,9 @@ where
     T: ConcatenationTree<'t>,
 {
     let mut pattern = String::new();
-    pattern.push('^');
+    // Tree wildcards are encoded with `.`, which must match any character in a path
+    // (including new lines).
+    pattern.push_str("(?s)^");
     encode(Grouping::Capture, None, &mut pattern, tree);
     pattern.push('$');
     Regex::new(&pattern).map_err(|error| match error {
